@@ -5,6 +5,8 @@ LABELS = ["61", "62", "63", "2a", "41"]          # a b c * A
 # octets that differ from another pool octet (or from each other) ONLY in bit 5 without being a letter pair:
 # LF / '*', '_' / DEL, '@' / '`', '[' / '{'  (a case fold written as `| 0x20` or `^ 0x20` confuses them)
 FOLD_LABELS = ["0a", "5f", "7f", "40", "60", "5b", "7b"]
+# labels that merely BEGIN with an asterisk: ordinary labels, not wildcards (RFC 4592 2.1.1: the wildcard label is exactly "*")
+STAR_LABELS = ["2a78", "2a2a", "2a"]
 
 
 def bit5_variant(rng, labels):
@@ -171,7 +173,8 @@ def gen_zone(rng, max_records=40):
     cls = rng.choice([1, 1, 1, 1, 7, 3])
     # owner pool: relative names, biased to build delegations at several depths, wildcards, ENTs
     pool = [[]]
-    alphabet = LABELS + (rng.sample(FOLD_LABELS, rng.randint(1, 3)) if rng.random() < 0.3 else [])
+    alphabet = LABELS + (rng.sample(FOLD_LABELS, rng.randint(1, 3)) if rng.random() < 0.3 else []) + \
+        (STAR_LABELS[:2] if rng.random() < 0.15 else [])
     for _ in range(rng.randint(1, 10)):
         depth = rng.choice([1, 1, 2, 2, 3, 3, 4])
         pool.append([rng.choice(alphabet) for _ in range(depth)])
@@ -265,6 +268,8 @@ def gen_vzone(rng):
     dels = []
     for _ in range(rng.choice([0, 1, 1, 2, 3])):
         d = [rng.choice(L) for _ in range(rng.choice([1, 1, 2]))]
+        if rng.random() < 0.12:
+            d[0] = rng.choice(STAR_LABELS[:2])        # a delegation whose first label only begins with '*'
         dels.append(d)
     if dels and rng.random() < 0.3:
         dels.append([rng.choice(L)] + dels[0])          # a delegation below a delegation (occluded)
